@@ -503,6 +503,34 @@ func runC10(r *Run) {
 			idx := 0
 			eachCall(fn, func(ci CallInfo) {
 				if ci.Name == "BigIntMut" {
+					// reading through the shared number (x.BigIntMut().Sign()) changes nothing: only a use that can write
+					// to it or lets it escape (a mutating big.Int method, an argument, a return, a store) is reported
+					if v, isV := ci.Instr.(ssa.Value); isV && v.Referrers() != nil {
+						readOnly := true
+						for _, ref := range *v.Referrers() {
+							rc, isCall := ref.(ssa.CallInstruction)
+							if !isCall {
+								if _, isDbg := ref.(*ssa.DebugRef); isDbg {
+									continue
+								}
+								readOnly = false
+								continue
+							}
+							rci := callInfo(rc)
+							isRecv := len(rc.Common().Args) > 0 && rc.Common().Args[0] == v && rci.PkgPath == "math/big" && rci.Recv == "Int"
+							if !isRecv || bigMutators[rci.Name] {
+								readOnly = false
+							}
+							for _, a := range rc.Common().Args[1:] {
+								if a == v {
+									readOnly = false
+								}
+							}
+						}
+						if readOnly {
+							return
+						}
+					}
 					idx++
 					bad++
 					r.Bad("R13", fmt.Sprintf("%s#BigIntMut-%d", fnID(fn), idx), P.Pos(instrPos(ci.Instr)), "the function takes the shared, mutable big.Int out of an sdk.Int/Dec: arithmetic on it changes every copy of the amount — the coins minted or sent afterwards, the message's own amount field")
